@@ -26,3 +26,24 @@ __CPROVER_ensures(K_POST_CONVERT_RANGE(__CPROVER_return_value, msa, kv_gi, kv_gj
 #endif
 #endif
 #endif
+
+/* ---------------------------------------------------------------- detect_alphabet (C13, C14, C04)
+ * From C13: "Input whose residues are all nucleotide letters (A,C,G,T,U,N in either case) is treated as
+ * nucleotide, and input in which at least a quarter of the residues are letters that occur only in proteins
+ * is treated as protein".  Residues are letters; other characters of the histogram (gap symbols, padding;
+ * C04: "arbitrary gap insertions ... alignments that are mostly gaps") must not matter.
+ * Ghost totals are computed by the harness from the histogram:                                    */
+#ifndef MSA_OP_CONTRACTS_DETECT
+#define MSA_OP_CONTRACTS_DETECT
+long long kv_n_letters;   /* all letters                       */
+long long kv_n_nuc;       /* A C G T U N (either case)          */
+long long kv_n_protonly;  /* letters that occur only in proteins: D E F H I K L M P Q R S V W Y (either case) */
+
+#define K_UP(c) (((c) >= 'a' && (c) <= 'z') ? (c) - 32 : (c))
+#define K_LETTER(c) (((c) >= 'A' && (c) <= 'Z') || ((c) >= 'a' && (c) <= 'z'))
+#define K_NUC6(c) (K_UP(c)=='A'||K_UP(c)=='C'||K_UP(c)=='G'||K_UP(c)=='T'||K_UP(c)=='U'||K_UP(c)=='N')
+#define K_PROTONLY(c) (K_UP(c)=='D'||K_UP(c)=='E'||K_UP(c)=='F'||K_UP(c)=='H'||K_UP(c)=='I'||K_UP(c)=='K'||K_UP(c)=='L'||K_UP(c)=='M'||K_UP(c)=='P'||K_UP(c)=='Q'||K_UP(c)=='R'||K_UP(c)=='S'||K_UP(c)=='V'||K_UP(c)=='W'||K_UP(c)=='Y')
+
+#define K_POST_DETECT_NUC(ret,msa)  (!(kv_n_letters > 0 && kv_n_nuc == kv_n_letters) || ((ret) == OK && (msa)->biotype == ALN_BIOTYPE_DNA))
+#define K_POST_DETECT_PROT(ret,msa) (!(kv_n_letters > 0 && 4 * kv_n_protonly >= kv_n_letters) || ((ret) == OK && (msa)->biotype == ALN_BIOTYPE_PROTEIN))
+#endif
